@@ -420,12 +420,12 @@ func init() {
 		ID:    "C19",
 		Level: "fault_enumeration",
 		Title: "A failure anywhere surfaces as an error - never as a partial result",
-		Rule: "rapid draws a document and a query from 40 construct templates (filter, CASE, IN list, BETWEEN, function arguments, GROUP BY/HAVING/aggregates, " +
+		Rule: "rapid draws a document and a query from 47 construct templates (filter, CASE, IN list, BETWEEN, function arguments, GROUP BY/HAVING/aggregates, " +
 			"joins incl. PARALLEL/HASH, CTEs (also referenced twice), derived tables, select-item/IN/EXISTS subqueries on the row and on `<-`, UNION chains, " +
 			"ORDER BY/LIMIT, DISTINCT, nested FROM, LIKE/IS; Wrapped or not) and one of its fault positions; kind fn: a fault-free run counts the N " +
 			"invocations of the planted function, then EVERY k in 1..N (cap 64, reported) is executed with the function returning an error at its k-th " +
-			"invocation; kind type: an expression the engine rejects in the simplest position is planted at the position; kind raise: RAISE / " +
-			"RAISE_WHEN in select lists, CTE bodies, derived tables and row-scoped subqueries with an engine-evaluated probe deciding whether it " +
+			"invocation (a sixth of them under the ONCE qualifier; after every third failing Exec the same Query object is executed again without the fault and must return the fault-free result); kind type: an expression the engine rejects in the simplest position is planted at the position; kind raise: RAISE / " +
+			"RAISE_WHEN in select lists, CTE bodies, derived tables and row-scoped subqueries (half of them with side-channel options such as an UnReportedErrors handler installed) with an engine-evaluated probe deciding whether it " +
 			"fires. Oracle: New/Exec return an error and no rows (no panic); afterwards the same query without the fault and SELECT * on the SAME input " +
 			"object return what they return on a pristine copy. Non-trivial: N >= 2 (failures mid-stream), a planted type error, or a RAISE that fires. " +
 			"Before the random search a fixed grid runs on every invocation: every construct x 6 generator examples with fixed seeds x every fault position x every k. " +
